@@ -42,6 +42,7 @@ type world struct {
 	holds  map[string]chan struct{}
 	ended  bool // run is over: every hold is open
 	endC   chan struct{} // closed at the very end of the run
+	ghosts map[int][]AddrW // interface indexes which now belong to some other interface
 }
 
 type faultState struct {
@@ -529,6 +530,7 @@ func (ifc *wiface) dialFunc(mode system.DialerMode) func() (*system.DialContext,
 
 		w.mu.Lock()
 		ifc.gen++
+		idxNow := ifc.spec.Index
 		c := &simConn{w: w, ifc: ifc, gen: ifc.gen}
 		ifc.conn = c
 		mac := ifc.mac
@@ -539,13 +541,14 @@ func (ifc *wiface) dialFunc(mode system.DialerMode) func() (*system.DialContext,
 		w.mu.Unlock()
 		x.Gen = c.gen
 		x.S = mac.String()
+		x.V = int64(idxNow)
 		w.log.Add(x)
 
 		ll, _ := netip.ParseAddr(ifc.spec.LL)
 		return &system.DialContext{
 			Conn: c,
 			Interface: &net.Interface{
-				Index:        ifc.spec.Index,
+				Index:        idxNow,
 				MTU:          1500,
 				Name:         ifc.spec.Name,
 				HardwareAddr: mac,
@@ -620,14 +623,37 @@ func (w *world) rtnl(m rtnetlink.Message, family uint16, flags netlink.HeaderFla
 		ifc := w.byIdx[int(m.Index)]
 		w.mu.Unlock()
 		if ifc == nil {
-			panic(fmt.Sprintf("sim: rtnetlink address dump for unknown index %d", m.Index))
+			// no interface has this index (any more): what the kernel says
+			w.mu.Lock()
+			ghost, isGhost := w.ghosts[int(m.Index)]
+			w.mu.Unlock()
+			x := verifsim.Event{K: "rtnl.addr.exit", V: int64(m.Index)}
+			if !isGhost {
+				w.log.Add(verifsim.Event{K: "rtnl.addr.enter", V: int64(m.Index)})
+				x.Err = "ENODEV"
+				w.log.Add(x)
+				return nil, &netlink.OpError{Op: "receive", Err: syscall.ENODEV}
+			}
+			// the index now belongs to some other interface
+			w.log.Add(verifsim.Event{K: "rtnl.addr.enter", V: int64(m.Index)})
+			x.S = addrListString(ghost)
+			w.log.Add(x)
+			out := make([]rtnetlink.Message, 0, len(ghost))
+			for _, a := range ghost {
+				p := netip.MustParsePrefix(a.CIDR)
+				out = append(out, &rtnetlink.AddressMessage{
+					Family: unix.AF_INET6, PrefixLength: uint8(p.Bits()), Flags: uint8(a.Flags), Index: m.Index,
+					Attributes: &rtnetlink.AddressAttributes{Address: net.IP(p.Addr().AsSlice()), CacheInfo: rtnetlink.CacheInfo{Valid: 3600, Prefered: 3600}, Flags: a.Flags},
+				})
+			}
+			return out, nil
 		}
-		e := verifsim.Event{K: "rtnl.addr.enter", Node: ifc.n.id, If: ifc.spec.Name}
+		e := verifsim.Event{K: "rtnl.addr.enter", Node: ifc.n.id, If: ifc.spec.Name, V: int64(m.Index)}
 		f, _ := w.decide("rtnl.addr", ifc.n.id, ifc.spec.Name, "")
 		e.F = faultTag(f)
 		ref := w.log.Add(e)
 		w.park(f)
-		x := verifsim.Event{K: "rtnl.addr.exit", Node: ifc.n.id, If: ifc.spec.Name, Ref: ref}
+		x := verifsim.Event{K: "rtnl.addr.exit", Node: ifc.n.id, If: ifc.spec.Name, Ref: ref, V: int64(m.Index)}
 		if f != nil && f.Err != "" {
 			w.fault("rtnl.addr." + f.Err)
 			x.Err = f.Err
